@@ -14,3 +14,10 @@ def ro(x):
     y = np.array(x, copy=True)
     y.setflags(write=False)
     return y
+
+
+def rov(x):
+    """read-only VIEW (keeps the memory layout: strides, offset)"""
+    y = x.view()
+    y.setflags(write=False)
+    return y
